@@ -135,14 +135,6 @@ theorem useTail_tostr (o : Oracle Node) (ho : OracleTok o) (nat dc : Item Node) 
 
 /-! ## Use_Stmt -/
 
-/-- the text between `USE` and the first `::` is handed to `Module_Nature` only when it starts with
-    `,`; otherwise the code never looks at it: it must be empty for the tokens to be kept -/
-def useNatOK (s : Str) : Bool :=
-  let line := lstrip ((strip s).drop 3)
-  match cutSub2 ':' ':' line with
-  | some (pre, _) => startsC ',' line || pre.isEmpty
-  | none => true
-
 theorem lstrip_head_ns {x y : Str} {c : Char} (h : lstrip x = c :: y) : isSpace c = false := by
   induction x with
   | nil => cases h
@@ -158,33 +150,12 @@ theorem lstrip_head_ns {x y : Str} {c : Char} (h : lstrip x = c :: y) : isSpace 
 theorem toks_ne_nil_of_head {c : Char} {y : Str} (h : isSpace c = false) : toks (c :: y) ≠ [] := by
   simp [toks, noBlank, h, upper]
 
-theorem useNatOK_some {s pre post : Str}
-    (h : cutSub2 ':' ':' (lstrip ((strip s).drop 3)) = some (pre, post)) :
-    useNatOK s = (startsC ',' (lstrip ((strip s).drop 3)) || pre.isEmpty) := by
-  unfold useNatOK
-  dsimp only
-  rw [h]
-
-theorem useNatOK_none {s : Str} (h : cutSub2 ':' ':' (lstrip ((strip s).drop 3)) = none) :
-    useNatOK s = true := by
-  unfold useNatOK
-  dsimp only
-  rw [h]
-
-/- intended statement (FALSE for the code: `USE x :: m` is accepted and printed `USE :: m`):
-     matchUse o s = .ok items → ∃ t, tostrUse o items = .ok t ∧ toks t = toks s -/
-
-/-- exact relation.  `USE [[, nature] ::] name [, rename-list | , ONLY: [only-list]]` keeps its tokens,
-    EXCEPT that a text between `USE` and the first `::` that does not start with `,` is never looked at:
-    it is dropped (`toks s = USE pre :: post`, `toks t = USE :: post`, `toks pre ≠ []`). -/
+/-- **Use_Stmt** (after the repair `elif line[:idx].strip(): return None` of `Use_Stmt._match`): every accepted form
+    `USE [[, nature] ::] name [, rename-list | , ONLY: [only-list]]` keeps its tokens — UNCONDITIONALLY.
+    (Before the repair a text between `USE` and `::` that did not start with `,` was never looked at and was dropped.) -/
 theorem use_tostr_match_tokens (o : Oracle Node) (ho : OracleTok o) (s : Str)
     (items : List (Item Node)) (hm : matchUse o s = .ok items) :
-    ∃ t, tostrUse o items = .ok t ∧
-      (useNatOK s = true → toks t = toks s) ∧
-      (useNatOK s = false → ∃ pre post,
-        cutSub2 ':' ':' (lstrip ((strip s).drop 3)) = some (pre, post) ∧ toks pre ≠ [] ∧
-        toks s = toks "USE".toList ++ toks pre ++ toks "::".toList ++ toks post ∧
-        toks t = toks "USE".toList ++ toks "::".toList ++ toks post) ∧
+    ∃ t, tostrUse o items = .ok t ∧ toks t = toks s ∧
       ((∀ i ∈ items, net (i.text o) = 0) → net t = 0) := by
   unfold matchUse at hm
   dsimp only at hm
@@ -201,7 +172,6 @@ theorem use_tostr_match_tokens (o : Oracle Node) (ho : OracleTok o) (s : Str)
   · cases hm
   split at hm
   · rename_i pre post heq
-    have hOK := useNatOK_some heq
     have hL := cutSub2_spec _ _ _ heq
     have e3 : ∀ X : Str, ':' :: ':' :: X = "::".toList ++ X := fun _ => rfl
     have eL : toks (lstrip ((strip s).drop 3)) = toks pre ++ toks "::".toList ++ toks post := by
@@ -211,87 +181,60 @@ theorem use_tostr_match_tokens (o : Oracle Node) (ho : OracleTok o) (s : Str)
     split at h2
     · cases h2
     obtain ⟨t, ht1, ht2, ht3⟩ := useTail_tostr o ho nat (.str "::".toList) _ items h2
-    refine ⟨t, ht1, ?_, ?_, ht3⟩
-    · intro hok
-      by_cases hst : startsC ',' (lstrip ((strip s).drop 3)) = true
-      · rw [if_pos hst] at hnat
-        split at hnat
-        · cases hnat
-        obtain ⟨n, hn, rfl⟩ := Res.map_eq_ok hnat
-        have hn' : toks (o.str n) = toks (pre.drop 1) := by rw [ho _ _ _ hn, toks_strip]
-        have hpre : toks pre = toks ",".toList ++ toks (pre.drop 1) := by
-          match pre, hL with
-          | [], hL => rw [hL] at hst; simp [startsC] at hst
-          | d :: p, hL =>
-            rw [hL] at hst
-            have : d = ',' := by simpa [startsC] using hst
-            subst this
-            exact toks_cons ',' p
-        have eh : useHead o (.node n) (.str "::".toList) =
-            "USE, ".toList ++ o.str n ++ " ".toList ++ "::".toList := rfl
-        have k : toks "USE, ".toList = toks "USE".toList ++ toks ",".toList := by decide
-        rw [ht2, e0, eL, hpre, eh]
-        simp only [toks_append, toks_lstrip, hn', toks_sp, k, List.nil_append, List.append_assoc]
-      · have hst' : startsC ',' (lstrip ((strip s).drop 3)) = false := by simpa using hst
-        rw [if_neg hst] at hnat
-        cases hnat
-        rw [hOK, hst', Bool.false_or] at hok
-        have hp : pre = [] := by simpa using hok
-        have eh : useHead o (.none : Item Node) (.str "::".toList) = "USE ".toList ++ "::".toList := rfl
-        have k : toks "USE ".toList = toks "USE".toList := by decide
-        rw [ht2, e0, eL, hp, eh]
-        simp only [toks_append, toks_lstrip, k, toks_nil, List.append_nil, List.append_assoc,
-          List.nil_append]
-    · intro hbad
-      rw [hOK, Bool.or_eq_false_iff] at hbad
-      obtain ⟨hst, hpe⟩ := hbad
-      have hstn : ¬ startsC ',' (lstrip ((strip s).drop 3)) = true := by rw [hst]; exact Bool.false_ne_true
-      rw [if_neg hstn] at hnat
+    refine ⟨t, ht1, ?_, ht3⟩
+    by_cases hst : startsC ',' (lstrip ((strip s).drop 3)) = true
+    · rw [if_pos hst] at hnat
+      split at hnat
+      · cases hnat
+      obtain ⟨n, hn, rfl⟩ := Res.map_eq_ok hnat
+      have hn' : toks (o.str n) = toks (pre.drop 1) := by rw [ho _ _ _ hn, toks_strip]
+      have hpre : toks pre = toks ",".toList ++ toks (pre.drop 1) := by
+        match pre, hL with
+        | [], hL => rw [hL] at hst; simp [startsC] at hst
+        | d :: p, hL =>
+          rw [hL] at hst
+          have : d = ',' := by simpa [startsC] using hst
+          subst this
+          exact toks_cons ',' p
+      have eh : useHead o (.node n) (.str "::".toList) =
+          "USE, ".toList ++ o.str n ++ " ".toList ++ "::".toList := rfl
+      have k : toks "USE, ".toList = toks "USE".toList ++ toks ",".toList := by decide
+      rw [ht2, e0, eL, hpre, eh]
+      simp only [toks_append, toks_lstrip, hn', toks_sp, k, List.nil_append, List.append_assoc]
+    · rw [if_neg hst] at hnat
+      split at hnat
+      · cases hnat
+      rename_i hpe
       cases hnat
-      refine ⟨pre, post, heq, ?_, ?_, ?_⟩
-      · match pre, hL, hpe with
-        | d :: p, hL, _ => exact toks_ne_nil_of_head (lstrip_head_ns hL)
-      · rw [e0, eL]; simp only [List.append_assoc]
-      · have eh : useHead o (.none : Item Node) (.str "::".toList) = "USE ".toList ++ "::".toList := rfl
-        have k : toks "USE ".toList = toks "USE".toList := by decide
-        rw [ht2, eh]
-        simp only [toks_append, toks_lstrip, k]
-  · rename_i heq
-    have hOK := useNatOK_none heq
-    obtain ⟨f, hf, h2⟩ := Res.bind_eq_ok hm
+      -- nothing but blanks stands between USE and `::`
+      have hp : toks pre = [] := by
+        have : (strip pre).isEmpty = true := by simpa using hpe
+        rw [← toks_strip]; exact toks_isEmpty' this
+      have eh : useHead o (.none : Item Node) (.str "::".toList) = "USE ".toList ++ "::".toList := rfl
+      have k : toks "USE ".toList = toks "USE".toList := by decide
+      rw [ht2, e0, eL, hp, eh]
+      simp only [toks_append, toks_lstrip, k, List.append_assoc, List.nil_append]
+  · obtain ⟨f, hf, h2⟩ := Res.bind_eq_ok hm
     split at h2
     · cases h2
     obtain ⟨t, ht1, ht2, ht3⟩ := useTail_tostr o ho .none .none _ items h2
-    refine ⟨t, ht1, ?_, ?_, ht3⟩
-    · intro _
-      have eh : useHead o (.none : Item Node) (.none : Item Node) = "USE".toList := rfl
-      rw [ht2, e0, eh]
-    · intro hbad
-      rw [hOK] at hbad; cases hbad
+    refine ⟨t, ht1, ?_, ht3⟩
+    have eh : useHead o (.none : Item Node) (.none : Item Node) = "USE".toList := rfl
+    rw [ht2, e0, eh]
 
-/-- the `_partial` form: under the decidable hypothesis `useNatOK s` the tokens are kept -/
-theorem use_tostr_match_tokens_partial (o : Oracle Node) (ho : OracleTok o) (s : Str)
-    (items : List (Item Node)) (hm : matchUse o s = .ok items) (hs : useNatOK s = true) :
-    ∃ t, tostrUse o items = .ok t ∧ toks t = toks s ∧
-      ((∀ i ∈ items, net (i.text o) = 0) → net t = 0) := by
-  obtain ⟨t, h1, h2, _, h4⟩ := use_tostr_match_tokens o ho s items hm
-  exact ⟨t, h1, h2 hs, h4⟩
-
-/-- witness: `USE x :: m` is accepted, the `x` is never looked at and is lost in the printed text -/
-theorem use_drops_before_colons :
-    matchUse echoOracle "use x :: m".toList =
-      .ok [.none, .str "::".toList, .node "m".toList, .str [], .none] ∧
-    tostrUse echoOracle [.none, .str "::".toList, .node "m".toList, .str [], .none] = .ok "USE :: m".toList ∧
-    useNatOK "use x :: m".toList = false ∧
-    toks "USE :: m".toList ≠ toks "use x :: m".toList := by decide
-
-/-- non-vacuity of the hypothesis: the regular forms satisfy it -/
-example : useNatOK "USE, intrinsic :: iso_c_binding, ONLY: c_int".toList = true ∧
-    useNatOK "use :: m".toList = true ∧ useNatOK "use m, a => b".toList = true := by decide
+/-- REGRESSION witnesses for the repair: a text between `USE` and `::` other than `, nature` is REJECTED
+    (before: accepted and silently dropped — `use x :: m` was printed `USE :: m`, `use (a + :: m` was accepted
+    with its unbalanced parenthesis, `use intrinsic :: iso_c_binding` lost its nature); the regular forms are kept -/
+theorem use_rejects_text_before_colons :
+    matchUse echoOracle "use x :: m".toList = .noMatch ∧
+    matchUse echoOracle "use (a + :: m".toList = .noMatch ∧
+    matchUse echoOracle "use intrinsic :: iso_c_binding".toList = .noMatch ∧
+    matchUse echoOracle "use :: m".toList = .ok [.none, .str "::".toList, .node "m".toList, .str [], .none] ∧
+    matchUse echoOracle "use, intrinsic :: m".toList =
+      .ok [.node "intrinsic".toList, .str "::".toList, .node "m".toList, .str [], .none] := by decide
 
 end Fp.Rest
 
 #print axioms Fp.Rest.useTail_tostr
 #print axioms Fp.Rest.use_tostr_match_tokens
-#print axioms Fp.Rest.use_tostr_match_tokens_partial
-#print axioms Fp.Rest.use_drops_before_colons
+#print axioms Fp.Rest.use_rejects_text_before_colons
